@@ -256,8 +256,9 @@ class World:
         self.fetchlog = FetchLog()
         self.key_of_path = {}
         self.path_of_key = {}
+        self.cache_dir = "/SIMFS/" + k.get("cache_dir", "cache")
         for i, kd in enumerate(self.keys):
-            p = CACHE_DIR + "/" + cache_file_name(kd)
+            p = self.cache_dir + "/" + cache_file_name(kd)
             self.key_of_path[p] = i
             self.path_of_key[i] = p
         self.key_of_md5 = {posixpath.basename(p)[10:42]: i for p, i in self.key_of_path.items()}
@@ -315,7 +316,7 @@ class World:
         key = self.key_of_path.get(path)
         if key is not None:
             return key
-        if path.startswith(CACHE_DIR + "/"):
+        if path.startswith(self.cache_dir + "/"):
             m = self._MD5.search(posixpath.basename(path))
             if m:
                 return self.key_of_md5.get(m.group(0))
@@ -469,7 +470,7 @@ class World:
     def snapshot_dir(self):
         """name -> (kind, size, atime, mtime, bytes) for everything directly or indirectly in the cache dir."""
         out = {}
-        for p, kind, size, at, mt, data, ino, gen in self.fs.h_tree(CACHE_DIR):
+        for p, kind, size, at, mt, data, ino, gen in self.fs.h_tree(self.cache_dir):
             out[p] = (kind, size, at, mt, data, ino, gen)
         return out
 
@@ -481,13 +482,13 @@ class World:
         size_gb = size_bytes / 1e9
         if self.knobs.get("api", "object") == "module":
             self.fc._ACTIVE_FILE_CACHES.clear()
-            self.fc.create_cache(CACHE_NAME, CACHE_DIR, cache_size_GB=size_gb, do_cache_eviction_on_startup=evict,
+            self.fc.create_cache(CACHE_NAME, self.cache_dir, cache_size_GB=size_gb, do_cache_eviction_on_startup=evict,
                                  download_in_parallel=parallel, resources=self._resources())
             self.cache = self.fc.get_cache(CACHE_NAME)
             self.fc.set_directive_function("postprocess", "pp", self._pp, CACHE_NAME)
             self.fc.set_directive_function("validate", "v", self._validate, CACHE_NAME)
         else:
-            self.cache = self.co.FileCache(CACHE_DIR, size_GB=size_gb, do_cache_eviction_on_startup=evict,
+            self.cache = self.co.FileCache(self.cache_dir, size_GB=size_gb, do_cache_eviction_on_startup=evict,
                                            resources=self._resources(), parallel=parallel,
                                            allow_for_missing_files=allow_missing)
             self.cache.set_directive_function("postprocess", "pp", self._pp)
@@ -761,6 +762,13 @@ class World:
         elif kind == "GET":
             self.stats["gets"] += 1
             uris = [self.uris[i] for i in op["keys"]]
+            if op.get("val"):
+                # per-occurrence override of the validate directive (the same uri may be named with and
+                # without it in one request)
+                uris = []
+                for pos, i in enumerate(op["keys"]):
+                    ov = op["val"][pos] if pos < len(op["val"]) else None
+                    uris.append(self.uris[i] if ov is None else key_uri(dict(self.keys[i], val=bool(ov))))
             arg = uris[0] if (len(uris) == 1 and op.get("as_str")) else uris
             obs.result = self._get(arg)
         elif kind == "REMOVE":
@@ -788,7 +796,7 @@ class World:
         elif kind == "FOREIGN":
             import os
             name = self.resolve_foreign(op["name"])
-            p = CACHE_DIR + "/" + name
+            p = self.cache_dir + "/" + name
             obs.foreign_path = p
             if "/" in name:
                 os.makedirs(posixpath.dirname(p), exist_ok=True)
@@ -800,7 +808,7 @@ class World:
         elif kind == "EDIT_CONFIG":
             # the documented way to change the size of an existing cache: edit file_cache_config.json
             import json as _json
-            p = CACHE_DIR + "/file_cache_config.json"
+            p = self.cache_dir + "/file_cache_config.json"
             obs.result = None
             if self.fs.h_exists(p):
                 try:
